@@ -16,6 +16,7 @@ import (
 
 	"github.com/onosproject/onos-api/go/onos/config/admin"
 	configapi "github.com/onosproject/onos-api/go/onos/config/v2"
+	"github.com/onosproject/onos-config/pkg/utils"
 	"github.com/onosproject/onos-lib-go/pkg/logging"
 )
 
@@ -190,6 +191,10 @@ func IsPathValid(path string) error {
 // GetParentPath returns the immediate parent path of the specified path; empty string if "/" is given
 func GetParentPath(path string) string {
 	i := strings.LastIndex(path, "/")
+	// A '/' inside a list key value (e.g. /a/b[k=x/y]) does not separate path elements
+	if elems := utils.SplitPath(path); len(elems) > 0 && !strings.HasSuffix(path, "/") {
+		i = len(path) - len(elems[len(elems)-1]) - 1
+	}
 	if i <= 0 {
 		return ""
 	}
